@@ -297,27 +297,38 @@ impl State {
 
     /// Handle a connection-level error.
     pub fn handle_error(&mut self, err: &proto::Error) {
+        let recv_end_stream = self.is_recv_end_stream();
         match self.inner {
             Closed(..) => {}
             _ => {
                 tracing::trace!("handle_error; err={:?}", err);
-                self.inner = Closed(Cause::Error(err.clone()));
+                // Preserve the received EOS: the complete message stays readable.
+                self.inner = Closed(if recv_end_stream {
+                    Cause::ErrorAfterEndStream(err.clone())
+                } else {
+                    Cause::Error(err.clone())
+                });
             }
         }
     }
 
     pub fn recv_eof(&mut self) {
+        let recv_end_stream = self.is_recv_end_stream();
         match self.inner {
             Closed(..) => {}
             ref state => {
                 tracing::trace!("recv_eof; state={:?}", state);
-                self.inner = Closed(Cause::Error(
-                    io::Error::new(
-                        io::ErrorKind::BrokenPipe,
-                        "stream closed because of a broken pipe",
-                    )
-                    .into(),
-                ));
+                let err = io::Error::new(
+                    io::ErrorKind::BrokenPipe,
+                    "stream closed because of a broken pipe",
+                )
+                .into();
+                // Preserve the received EOS: the complete message stays readable.
+                self.inner = Closed(if recv_end_stream {
+                    Cause::ErrorAfterEndStream(err)
+                } else {
+                    Cause::Error(err)
+                });
             }
         }
     }
